@@ -54,6 +54,14 @@ def KeyOK (s : Bytes) : Prop := TokenOK s ∧ 44 ∉ s ∧ 61 ∉ s
 
 def IsB (s : Bytes) : Prop := ∀ b ∈ s, b < 256
 
+/-- Well-formed as the kernel prints it: the token fields (ids, `major:minor`, option
+    lists, fstype, optional `tag[:value]` fields) are non-empty and free of blank, newline
+    and carriage return; root, mountpoint, source and the super-option values are arbitrary
+    byte strings (the kernel escapes them); there is at least one super option ("rw"/"ro").
+    `superLast`: the value of the *last* super option does not end in a carriage return
+    -- the kernel does not escape CR, so such a line would end in "\r\n" and every line
+    reader that accepts CRLF (bufio.ScanLines) strips it; see `cr_at_line_end_lost` in
+    Props/C12 for the witness that the clause is needed. -/
 structure KMount.WF (m : KMount) : Prop where
   id : TokenOK m.id
   parent : TokenOK m.parent
@@ -63,9 +71,10 @@ structure KMount.WF (m : KMount) : Prop where
   optional : ∀ o ∈ m.optional, TokenOK o ∧ o ≠ [45]
   root : IsB m.root
   mp : IsB m.mp
-  source : IsB m.source ∧ 13 ∉ m.source
+  source : IsB m.source
   superNe : m.super ≠ []
-  super : ∀ o ∈ m.super, KeyOK o.key ∧ (∀ v, o.val = some v → IsB v ∧ 13 ∉ v)
+  super : ∀ o ∈ m.super, KeyOK o.key ∧ (∀ v, o.val = some v → IsB v)
+  superLast : ∀ o, m.super.getLast? = some o → ∀ v, o.val = some v → v.getLast? ≠ some 13
 
 /-- value of the last option with key `k` that has a value ("" if none) -/
 def lastVal (k : Bytes) (l : List SOpt) : Bytes :=
@@ -73,11 +82,40 @@ def lastVal (k : Bytes) (l : List SOpt) : Bytes :=
 
 def isShadowingType (t : Bytes) : Bool := t == b!"devtmpfs" || t == b!"sysfs"
 
+/-- one step of the shadow bookkeeping: a mount of a shadowing type, or a child of a
+    shadowed/shadowing mount, joins the shadow set -/
+def shadowStep (acc : List Bytes) (m : KMount) : List Bytes :=
+  if isShadowingType m.fstype || acc.contains m.parent then m.id :: acc else acc
+
 /-- Shadow set after reading a prefix of the table (ids whose subtree is shadowed). -/
-def shadowIds : List KMount → List Bytes
-  | [] => []
-  | ms => ms.foldl (fun acc m =>
-      if isShadowingType m.fstype || acc.contains m.parent then m.id :: acc else acc) []
+def shadowIds (ms : List KMount) : List Bytes := ms.foldl shadowStep []
+
+/-- "is a shadowed submount": `m` is listed after the mounts `pre`, is not itself of a
+    shadowing type, and its parent is in the shadow set of `pre` -/
+def inShadowAt (pre : List KMount) (m : KMount) : Bool :=
+  !isShadowingType m.fstype && (shadowIds pre).contains m.parent
+
+/-- the shadow flag of every mount of a table, in table order -/
+def shadowFlags (t : List KMount) : List Bool := t.mapIdx fun i m => inShadowAt (t.take i) m
+
+/-! ### the mount tree (for `shadow_iff_ancestor`) -/
+
+/-- `a` is the parent mount of `m` in table `t`; a reference to itself, as the kernel
+    prints for the top of the mount tree, is not a parent -/
+def IsParent (t : List KMount) (a m : KMount) : Prop := a ∈ t ∧ a.id = m.parent ∧ a.id ≠ m.id
+
+/-- `a` is a proper ancestor of `m` following parent ids -/
+inductive Ancestor (t : List KMount) : KMount → KMount → Prop
+  | parent {a m : KMount} : IsParent t a m → Ancestor t a m
+  | step {a b m : KMount} : Ancestor t a b → IsParent t b m → Ancestor t a m
+
+/-- the table lists parents before their children: no mount's parent id is the id of a
+    mount listed after it -/
+def ParentsFirst (t : List KMount) : Prop :=
+  ∀ pre m post, t = pre ++ m :: post → ∀ x ∈ post, x.id ≠ m.parent
+
+/-- mount ids are pairwise distinct -/
+def DistinctIds (t : List KMount) : Prop := t.Pairwise fun a b => a.id ≠ b.id
 
 structure Expected where
   mountpoint : Bytes
